@@ -300,16 +300,32 @@ func TestVerif_C20_Windows(t *testing.T) {
 		}
 		var list []out
 		defer func() { flush(idx, list) }()
+		cnt := map[string]int64{} // counters of this history, added to the monitor once (no lock per observation)
+		defer func() {
+			for k, v := range cnt {
+				m.Count(k, v)
+			}
+		}()
 		r := m.Rand("history", idx)
 		steps, mode, wrap, nsJitter := verifHistory(r)
 		mt := verifNewMeter(r.Bool())
 		base := time.Unix(int64(r.PickU64(0, 10, 1700000000, 4102444800)), 0)
 		startAt := r.Intn(3) // the meter is "started" before this step; earlier steps verify the refusal
 		m.Case()
-		var log []string
+		cur := -1                  // index of the step being processed
+		mkLog := func() []string { // the history so far, formatted only when it is needed
+			var l []string
+			var tt int64
+			for i := 0; i <= cur && i < len(steps); i++ {
+				tt += steps[i].dt
+				l = append(l, fmt.Sprintf("(%d,%d,%v,%v)", tt, steps[i].c, steps[i].sample, steps[i].avg))
+			}
+			return l
+		}
 		add := func(sig, format string, a ...interface{}) {
+			log := mkLog()
 			rep := map[string]interface{}{"case": idx, "meter": mt.name(), "mode": mode, "ns_jitter": nsJitter, "base_unix": base.Unix(), "started_before_step": startAt,
-				"history_t_ns_counter_sample_avg": append([]string(nil), log...)}
+				"history_t_ns_counter_sample_avg": log}
 			list = append(list, out{sig, fmt.Sprintf(format, a...) + fmt.Sprintf(" [%s, %s, step %d] history(t_ns,counter,doSample,avg)=%s", mt.name(), mode, len(log)-1, strings.Join(verifTail(log, 12), " ")), rep})
 		}
 		// a fresh meter refuses every reading
@@ -319,7 +335,7 @@ func TestVerif_C20_Windows(t *testing.T) {
 				add("c20:read-before-start-not-refused", "getter %d of a fresh meter returned %v", g, val)
 				return
 			}
-			m.Count("refusals_before_start", 1)
+			cnt["refusals_before_start"]++
 		}
 		cands := []refkxps.State{{}}
 		var avg refkxps.Average
@@ -332,10 +348,10 @@ func TestVerif_C20_Windows(t *testing.T) {
 			tms += st.dt
 			now := base.Add(time.Duration(tms))
 			mt.src.c = st.c
-			log = append(log, fmt.Sprintf("(%d,%d,%v,%v)", tms, st.c, st.sample, st.avg))
-			m.Count("observations", 1)
-			m.Count("gap_"+st.gap, 1)
-			m.Count("step_"+st.act, 1)
+			cur = si
+			cnt["observations"]++
+			cnt["gap_"+st.gap]++
+			cnt["step_"+st.act]++
 			if si == startAt {
 				mt.imp.started = true // what Start() does, minus the wall-clock goroutine
 			}
@@ -343,7 +359,7 @@ func TestVerif_C20_Windows(t *testing.T) {
 			panicked := m.Guard("kxps.sample", nil, func() {
 				if st.sample {
 					if err := mt.imp.doSample(now); err != nil {
-						m.Count("doSample_errors", 1)
+						cnt["doSample_errors"]++
 					}
 				}
 				if !mt.imp.started {
@@ -355,9 +371,9 @@ func TestVerif_C20_Windows(t *testing.T) {
 							add("c20:read-before-start-not-refused", "getter %d returned %v before Start", g, val)
 							failed = true
 						} else {
-							m.Count("refusals_before_start", 1)
+							cnt["refusals_before_start"]++
 							if !strings.Contains(msg, "should start") {
-								m.Count("refusals_with_other_message", 1)
+								cnt["refusals_with_other_message"]++
 							}
 						}
 					}
@@ -370,7 +386,7 @@ func TestVerif_C20_Windows(t *testing.T) {
 			if st.sample {
 				if st.c == 0 && cands[0].Init {
 					zeroMid = true
-					m.Count("zero_mid_observations", 1)
+					cnt["zero_mid_observations"]++
 				}
 				var next []refkxps.State
 				for _, cs := range cands {
@@ -442,13 +458,13 @@ func TestVerif_C20_Windows(t *testing.T) {
 			for g := 0; g < 3; g++ {
 				if p.Last[g] != 0 {
 					fired = g + 1
-					m.Count([]string{"sampled_10s", "sampled_30s", "sampled_300s"}[g], 1)
+					cnt[[]string{"sampled_10s", "sampled_30s", "sampled_300s"}[g]]++
 				}
 				if p.Last[g] == 1 {
-					m.Count([]string{"nonzero_rate_10s_checked", "nonzero_rate_30s_checked", "nonzero_rate_300s_checked"}[g], 1)
+					cnt[[]string{"nonzero_rate_10s_checked", "nonzero_rate_30s_checked", "nonzero_rate_300s_checked"}[g]]++
 				}
 				if p.Last[g] == 2 {
-					m.Count("backwards_or_stall_yielded_zero", 1)
+					cnt["backwards_or_stall_yielded_zero"]++
 					ev["zeroed"] = true
 				}
 			}
@@ -456,7 +472,7 @@ func TestVerif_C20_Windows(t *testing.T) {
 				maxFired = fired
 			}
 			if wrap && si > 0 && st.c < steps[si-1].c && p.Last[0] == 1 {
-				m.Count("wrap_crossings_with_positive_rate", 1)
+				cnt["wrap_crossings_with_positive_rate"]++
 				ev["wrap-crossed"] = true
 			}
 			ev[st.act] = true
@@ -473,7 +489,7 @@ func TestVerif_C20_Windows(t *testing.T) {
 				want, any := avg.Read(tms, st.c)
 				switch {
 				case any:
-					m.Count("average_undefined_zero_elapsed", 1)
+					cnt["average_undefined_zero_elapsed"]++
 				case st.c == 0:
 					if got != 0 && got != prevAvg {
 						add("c20:average-differs:zero-observation", "average reads %v at a zero observation (0 or unchanged %v expected)", got, prevAvg)
@@ -492,9 +508,9 @@ func TestVerif_C20_Windows(t *testing.T) {
 						add("c20:average-differs:increase+ns-times", "average reads %v, the statement gives %v (accepted %v..%v for 1 ms resolution)", got, want, lo, hi)
 						return
 					}
-					m.Count("average_nonzero_checked", 1)
+					cnt["average_nonzero_checked"]++
 					if !verifClose(got, want) {
-						m.Count("average_within_1ms_resolution_only", 1)
+						cnt["average_within_1ms_resolution_only"]++
 					}
 				case !verifClose(got, want):
 					scope := "increase"
@@ -508,16 +524,16 @@ func TestVerif_C20_Windows(t *testing.T) {
 					return
 				default:
 					if want > 0 {
-						m.Count("average_nonzero_checked", 1)
+						cnt["average_nonzero_checked"]++
 					} else {
-						m.Count("average_zero_checked", 1)
+						cnt["average_zero_checked"]++
 					}
 				}
 				prevAvg = got
 			}
 		}
 		if steps[0].c == 0 {
-			m.Count("zero_first_histories", 1)
+			cnt["zero_first_histories"]++
 		}
 		var evs []string
 		for _, k := range []string{"zeroed", "wrap-crossed", "stall", "jump", "reset", "reset-to-zero", "zero-first"} {
@@ -527,7 +543,7 @@ func TestVerif_C20_Windows(t *testing.T) {
 		}
 		m.Classf("%s/%s/ns%v/fired%d/n%d/%s", mt.name(), mode, nsJitter, maxFired, verifBucket(len(steps)), strings.Join(evs, "+"))
 		if m.WantSample() && len(steps) <= 8 && maxFired >= 2 {
-			m.Sample(map[string]interface{}{"meter": mt.name(), "history_t_ns_counter_sample_avg": log, "final_rates": []float64{mt.public(0), mt.public(1), mt.public(2)}})
+			m.Sample(map[string]interface{}{"meter": mt.name(), "history_t_ns_counter_sample_avg": mkLog(), "final_rates": []float64{mt.public(0), mt.public(1), mt.public(2)}})
 		}
 	})
 	var es []*entry
